@@ -28,9 +28,14 @@ def alphabet(d):
         ops.append(["limit", n])
         ops.append(["offset", n])
     ops += [["slice", 3, 7], ["slice", None, 3], ["slice", 7, None], ["slice", 0, 0]]
+    ops += [["limit", ["lit", 4]], ["offset", ["lit", 5]]]  # the value given as a wrapped constant (a Term) instead of an int
     if d == "mssql":
         ops += [["fetch_next", 3], ["fetch_next", 0], ["top", 7]]
     return ops
+
+
+def _v(x):
+    return x[1] if isinstance(x, list) else x
 
 
 def model(seq):
@@ -38,9 +43,9 @@ def model(seq):
     lim = off = top = None
     for c in seq:
         if c[0] in ("limit", "fetch_next"):
-            lim = c[1]
+            lim = _v(c[1])
         elif c[0] == "offset":
-            off = c[1]
+            off = _v(c[1])
         elif c[0] == "slice":
             if c[1] is not None:
                 off = c[1]
@@ -54,7 +59,8 @@ def model(seq):
 def chunks(tier, seed):
     out = []
     for d in fp.CTX:
-        for pos in ("top", "from_sub", "join_sub", "in_sub", "setop_operand", "setop_self", "setop_self_ordered_operand"):
+        for pos in ("top", "from_sub", "join_sub", "in_sub", "setop_operand", "setop_chain_operand", "setop_chain_operand_union", "setop_self",
+                    "setop_self_ordered_operand"):
             for order in (False, True):
                 out.append({"d": d, "pos": pos, "order": order, "depth": 2 if tier == "quick" else 3})
     return out
@@ -63,7 +69,7 @@ def chunks(tier, seed):
 def expand(chunk):
     d = chunk["d"]
     ops = alphabet(d)
-    if chunk["pos"].startswith("setop_self"):
+    if chunk["pos"].startswith("setop_self") or chunk["pos"].startswith("setop_chain_operand"):
         ops = [o for o in ops if o[0] in ("limit", "offset")]
     seen = set()
     for k in range(0, chunk["depth"] + 1):
@@ -144,7 +150,8 @@ def slot(item, want, vals, used):
         used[0] += 1
         if t.value is not None and t.value != idx + 1 + used[1]:
             return False
-        return idx + used[1] < len(vals) and vals[idx + used[1]] == want
+        # (plain data: a builder object in the slot compares "equal" to anything, its == builds a criterion)
+        return idx + used[1] < len(vals) and type(vals[idx + used[1]]) is type(want) and vals[idx + used[1]] == want
     return False
 
 
@@ -252,6 +259,12 @@ def build_case(d, pos, order, seq):
                           ["where", ["logic", "AND", ["insub", ["f", "t", "a"], inner], ["cmp", "<", ["f", "t", "b"], ["raw", 8001]]]]]}
     if pos == "setop_operand":
         return {"calls": [["from", T], ["select", [["f", "t", "b"]]], ["union_all", inner]]}
+    if pos.startswith("setop_chain_operand"):
+        # the paginated thing is itself a set operation and is handed to the second call of a chain of the same operator
+        op = "union" if pos.endswith("_union") else "union_all"
+        nested = {"calls": [["from", T], ["select", [fa]], [op, {"calls": [["from", T], ["select", [["f", "t", "id"]]]]}]]
+                  + ([["orderby", [fa], "asc"]] if order else []) + seq}
+        return {"calls": [["from", T], ["select", [["f", "t", "b"]]], [op, {"calls": [["from", T], ["select", [["f", "t", "b"]]]]}], [op, nested]]}
     raise ValueError(pos)
 
 
@@ -300,6 +313,30 @@ def run_case(case):
             span = paren_group_after(toks, "JOIN")
         elif pos == "in_sub":
             span = paren_group_after(toks, "IN")
+        elif pos.startswith("setop_chain_operand"):
+            # the last operand: the parenthesised group after the last top-level UNION [ALL] (MySQL: the rest of the statement)
+            depth, last = 0, None
+            for i_, t_ in enumerate(toks):
+                if t_.kind == "OP" and t_.text == "(":
+                    depth += 1
+                elif t_.kind == "OP" and t_.text == ")":
+                    depth -= 1
+                elif depth == 0 and t_.kind == "WORD" and t_.value == "UNION":
+                    last = i_ + 1 if (i_ + 1 < len(toks) and toks[i_ + 1].kind == "WORD" and toks[i_ + 1].value == "ALL") else i_
+            if last is None:
+                span = None
+            elif last + 1 < len(toks) and toks[last + 1].text == "(":
+                depth, j_ = 0, last + 1
+                for j_ in range(last + 1, len(toks)):
+                    if toks[j_].text == "(" and toks[j_].kind == "OP":
+                        depth += 1
+                    elif toks[j_].text == ")" and toks[j_].kind == "OP":
+                        depth -= 1
+                        if depth == 0:
+                            break
+                span = toks[last + 2:j_]
+            else:
+                span = toks[last + 1:]
         else:
             span = paren_group_after(toks, "ALL")
             if span is None:  # unwrapped operand (MySQL): everything after UNION ALL
